@@ -42,6 +42,19 @@ theorem qe_representations_agree {K} [Semiring K] (nw : Nat) (img : Nat → Int 
 
 example : (QE.vector 3 (fun l => (l : Int))).asArray 4 = none := by decide
 
+/-- slice-count mismatches: a cube whose number of slices differs from the number of wavelengths is refused, except for a
+single slice, which the code broadcasts against all efficiencies (returns `photons · Σ qe`; reported as questionable) -/
+theorem collect_charge_slice_mismatch {K} [Semiring K] (ns nw : Nat) (img : Nat → Int → Int → K) (qe : Nat → K) :
+    (ns = nw → collectChargeChecked ns nw img qe = some (collectCharge nw img qe)) ∧
+    (ns ≠ nw → ns ≠ 1 → collectChargeChecked ns nw img qe = none) ∧
+    (ns ≠ nw → ns = 1 → ∃ f, collectChargeChecked ns nw img qe = some f ∧ ∀ i j, f i j = img 0 i j * ∑ l ∈ range nw, qe l) := by
+  refine ⟨fun h => by simp [collectChargeChecked, h], fun h1 h2 => by simp [collectChargeChecked, h1, h2], ?_⟩
+  intro h1 h2
+  subst h2
+  have h1' : ¬ (1 = nw) := h1
+  refine ⟨collectCharge nw (fun _ => img 0) qe, by simp [collectChargeChecked, h1'], ?_⟩
+  intro i j; rw [collect_charge_sum, Finset.mul_sum]
+
 /-! ## Bayer mosaic -/
 
 /-- the mosaic built by `np.tile` then `np.repeat` on both axes has exactly the image shape when the image size is a
@@ -182,17 +195,32 @@ theorem adc_nonneg (cap : Option K) (gain : Gain K) (img : Int → Int → K) (i
     0 ≤ adcFrame Int.floor cap gain img i j := by
   unfold adcFrame; rw [adcValue_eq_max]; exact le_max_left _ _
 
-/-- non-decreasing in the input for gain curves with non-negative coefficients, on non-negative counts -/
-theorem adc_monotone [IsStrictOrderedRing K] (cap : Option K) (g : List K) (hg : ∀ c ∈ g, 0 ≤ c) (hcap : ∀ c, cap = some c → 0 ≤ c)
-    {x y : K} (hx : 0 ≤ x) (hxy : x ≤ y) :
+/-- non-decreasing in the input for every gain curve that is non-decreasing on the counts that can reach it — `[0, cap]`
+with a saturation capacity, `[0, ∞)` without — whatever the signs of its coefficients (compressive curves with a negative
+quadratic term included): hypothesis on the curve, not on the coefficients -/
+theorem adc_monotone [IsStrictOrderedRing K] (cap : Option K) (g : List K)
+    (hmono : ∀ a b, 0 ≤ a → a ≤ b → (∀ c, cap = some c → b ≤ c) → polyGain g a ≤ polyGain g b)
+    (hcap : ∀ c, cap = some c → 0 ≤ c) {x y : K} (hx : 0 ≤ x) (hxy : x ≤ y) :
     adcValue Int.floor cap g x ≤ adcValue Int.floor cap g y := by
   rw [adcValue_eq_max, adcValue_eq_max]
   apply max_le_max (le_refl _)
   apply Int.floor_mono
-  apply polyGain_mono g hg _ (clipSat_mono cap hxy)
-  cases cap with
-  | none => simpa [clipSat]
-  | some c => rw [clipSat_eq_min]; exact le_min hx (hcap c rfl)
+  apply hmono _ _ _ (clipSat_mono cap hxy)
+  · intro c hc; subst hc; rw [clipSat_eq_min]; exact min_le_right _ _
+  · cases cap with
+    | none => simpa [clipSat]
+    | some c => rw [clipSat_eq_min]; exact le_min hx (hcap c rfl)
+
+/-- in particular for gain curves with non-negative coefficients -/
+theorem adc_monotone_nonneg_coeffs [IsStrictOrderedRing K] (cap : Option K) (g : List K) (hg : ∀ c ∈ g, 0 ≤ c) (hcap : ∀ c, cap = some c → 0 ≤ c)
+    {x y : K} (hx : 0 ≤ x) (hxy : x ≤ y) :
+    adcValue Int.floor cap g x ≤ adcValue Int.floor cap g y :=
+  adc_monotone cap g (fun _ _ ha hab _ => polyGain_mono g hg ha hab) hcap hx hxy
+
+/-- non-vacuity of `adc_monotone` beyond non-negative coefficients: the compressive curve `2x − x²/64` is non-decreasing on `[0, 64]` -/
+example (a b : ℚ) (_ha : 0 ≤ a) (hab : a ≤ b) (hb : b ≤ 64) : polyGain [-(1 / 64 : ℚ), 2] a ≤ polyGain [-(1 / 64 : ℚ), 2] b := by
+  simp only [polyGain, npow, List.length_cons, List.length_nil]
+  nlinarith [mul_nonneg (sub_nonneg.mpr hab) (sub_nonneg.mpr (by linarith : a + b ≤ 128))]
 
 /-- … and for a (scalar or per-pixel) linear gain `g ≥ 0` on all counts, negative ones included -/
 theorem adc_monotone_linear [IsStrictOrderedRing K] (cap : Option K) (g : K) (hg : 0 ≤ g) {x y : K} (hxy : x ≤ y) :
